@@ -183,7 +183,7 @@ GReport(g0, ev) ==
 
 \* bookkeeping of round-robin BIND picks: start order, assigned channel once known
 GPickStart(g, ev) ==
-  IF ev.op = "pick" /\ IsRRBind(g, ev) /\ ev.res \notin {"SKIPPED", "TF"} /\ Len(g.pubs) > 0 /\ g.pubs[ev.pk].ready # {}
+  IF ev.op = "pick" /\ IsRRBind(g, ev) /\ ev.res \notin {"SKIPPED", "TF"} /\ ev.pk \in DOMAIN g.pubs /\ g.pubs[ev.pk].ready # {}
   THEN [g EXCEPT !.rrs = Append(@, [n |-> NChans(g), ch |-> 0])] ELSE g
 
 PendQ(g, i) == LET S == {j \in DOMAIN g.pend : g.pend[j].i = i}
@@ -249,9 +249,10 @@ GhostNext(g, ev) ==
     [] ev.op = "state" -> GReport(g, ev)
     [] ev.op \in {"pick", "await", "cancel"} -> GPick(g, ev)
     [] ev.op = "done" -> GDone(g, ev)
-    [] ev.op = "advance" -> Tick(g, ev)
-    [] ev.op = "factory" -> [Tick(g, ev) EXCEPT !.failing = ev.fail]
-    [] ev.op = "rerr" -> Tick(g, ev)
+    \* these inputs are not expected to make the balancer call its ClientConn; whatever it does is still folded in
+    [] ev.op = "advance" -> ApplyCC(Tick(g, ev), ev.cc, 1, "state", 0)
+    [] ev.op = "factory" -> ApplyCC([Tick(g, ev) EXCEPT !.failing = ev.fail], ev.cc, 1, "state", 0)
+    [] ev.op = "rerr" -> ApplyCC(Tick(g, ev), ev.cc, 1, "state", 0)
     [] OTHER -> g
 
 ----------------------------------------------------------------------------
@@ -414,8 +415,17 @@ C09(g, ev, g2) ==
                  ~CtxEnded(Tick(g, ev), ev) /\ \E x \in Chans(g) : ~Ready(g, x)),
      Cl("C09_e", known, ch \in Chans(g)) }
 
+MethodTable == {"/v/Bind=BIND:list", "/v/Bound=BOUND:list", "/v/Bound2=BOUND:list", "/v/Unbind=UNBIND:list"}
 C17(g, ev, g2) ==
   { Cl("C17_e", ev.op = "end", ev.res = "OK"),
+    \* effective configuration = supplied one with the three zero-defaults, fixed by the first accepted resolver update (white-box)
+    Cl("C17_c", ev.op \notin {"reset", "end"} /\ ev.wb.ok /\ g2.init /\ ev.res \notin {"PANIC", "HANG", "SPIN"},
+                /\ ev.wb.cfgset
+                /\ ev.wb.ecfg.min = g2.cfg.min /\ ev.wb.ecfg.max = g2.cfg.max /\ ev.wb.ecfg.wm = g2.cfg.wm
+                /\ ev.wb.ecfg.fb = g2.cfg.fb /\ ev.wb.ecfg.uc = g2.cfg.uc /\ ev.wb.ecfg.ums = g2.cfg.ums /\ ev.wb.ecfg.rr = g2.cfg.rr),
+    \* every listed method with an affinity section is mapped to its command and key path, and no other method is
+    Cl("C17_m", ev.op \notin {"reset", "end"} /\ ev.wb.ok /\ g2.init /\ ev.res \notin {"PANIC", "HANG", "SPIN"},
+                SeqToSet(ev.wb.meths) = (IF g2.methods THEN MethodTable ELSE {})),
      Cl("C17_b", ev.op = "resolve" /\ ev.cfgk = "bad" /\ ~g.init, ev.res = "ERR" /\ ev.cc = <<>>) }
 
 C20(g, ev, g2) ==
@@ -439,7 +449,7 @@ Clauses(g, ev, g2) ==
 ClauseIds == {"C01_a", "C01_b", "C01_d", "C02_a", "C02_b", "C02_d", "C03_a", "C03_b", "C03_c", "C03_d", "C03_e",
               "C04_a", "C04_b", "C04_c", "C04_e", "C04_f", "C05_a", "C05_b", "C06_a", "C06_b", "C06_d",
               "C07_a", "C07_b", "C07_c", "C07_e", "C08_a", "C08_b", "C08_e",
-              "C09_a", "C09_a2", "C09_b", "C09_c", "C09_e", "C17_e", "C17_b", "C20_a", "C20_a2", "C20_b", "C20_c", "C20_d"}
+              "C09_a", "C09_a2", "C09_b", "C09_c", "C09_e", "C17_e", "C17_b", "C17_c", "C17_m", "C20_a", "C20_a2", "C20_b", "C20_c", "C20_d"}
 
 \* descriptors used to match violations against the known-findings file
 Tags(g2) == IF g2.resur THEN {"resurrected"} ELSE {}
